@@ -334,9 +334,11 @@ def normalize_url(
 
         # TODO: what to do of empty query items vs. no valued
         # TODO: should be dedupe query items?
+        # NOTE: items are unquoted first so that filtering and sorting do not
+        # depend on the way keys and values happen to be escaped
         qsl = [
             item
-            for item in safe_qsl_iter(query)
+            for item in safely_unquote_qsl(safe_qsl_iter(query))
             if not should_strip_query_item(
                 item,
                 normalize_amp=normalize_amp,
@@ -402,8 +404,6 @@ def normalize_url(
 
     if quoted:
         qsl = safely_quote_qsl(qsl)
-    else:
-        qsl = safely_unquote_qsl(qsl)
 
     query = safe_serialize_qsl(qsl)
 
